@@ -27,6 +27,9 @@ type PropSpec struct {
 	// log matching and leader completeness): their functions and obligations are claimed along
 	// with this property's own, so that a change that breaks the dependency is reported here too.
 	Includes []string `json:"includes,omitempty"`
+	// NoClosure: the claim is purely syntactic per function (lock discipline) and is not proved
+	// from loop invariants or callee contracts, so the support closure is not added.
+	NoClosure bool `json:"noclosure,omitempty"`
 	// Exclude: glob patterns of obligations that are NOT claimed although a pattern or the
 	// automatic support closure (loop invariants of the listed functions) would select them.
 	Exclude []string `json:"exclude,omitempty"`
@@ -272,6 +275,10 @@ func cmdCheck(args []string) int {
 	// in props.json).
 	pats := append([]string(nil), spec.Obligations...)
 	for _, f := range spec.Functions {
+		if spec.NoClosure {
+			pats = append(pats, f+".contract-binds")
+			continue
+		}
 		pats = append(pats, f+".loop*", f+".*#loop*", f+".call:*", f+".*#call:*", f+".contract-binds")
 	}
 	// obligations that are generated but deliberately not claimed by any property (with reasons)
@@ -662,7 +669,7 @@ func (e *Engine) regionTerm(o *Obligation, region string) (string, error) {
 	if o.vc.regionEval == nil {
 		return "", fmt.Errorf("no region evaluator")
 	}
-	return o.vc.regionEval(region)
+	return o.vc.regionEval(region, o.sec)
 }
 
 func sortedKeys2(m map[string]string) []string {
